@@ -182,16 +182,7 @@ public:
 		std::lock_guard<Mutex> lockGuard(mutex);
 		EVENTPP_VERIF_ACCESS(this, true, "cl.append");
 
-		if(head) {
-			node->previous = tail;
-			tail->next = node;
-			EVENTPP_VERIF_POINT("cl.append.mid");
-			tail = node;
-		}
-		else {
-			head = node;
-			tail = node;
-		}
+		doAppend(node);
 
 		return Handle(node);
 	}
@@ -222,20 +213,25 @@ public:
 		// Disable this assertion because it's too slow in debug mode.
 		//assert(before.expired() || ownsHandle(before));
 
+		NodePtr node(doAllocateNode(callback));
+
+		// The `before` handle must be resolved while holding the mutex, otherwise
+		// the callback it refers to can be removed by another thread in between.
+		// A callback that was removed but is still referenced by a running
+		// invocation is not in the list any more, so we append in that case.
+		std::lock_guard<Mutex> lockGuard(mutex);
+		EVENTPP_VERIF_ACCESS(this, true, "cl.insert");
+
 		NodePtr beforeNode = before.lock();
 		EVENTPP_VERIF_POINT("cl.insert.beforelocked");
-		if(beforeNode) {
-			NodePtr node(doAllocateNode(callback));
-
-			std::lock_guard<Mutex> lockGuard(mutex);
-			EVENTPP_VERIF_ACCESS(this, true, "cl.insert");
-
+		if(beforeNode && beforeNode->counter != removedCounter) {
 			doInsert(node, beforeNode);
-
-			return Handle(node);
+		}
+		else {
+			doAppend(node);
 		}
 
-		return append(callback);
+		return Handle(node);
 	}
 
 	bool remove(const Handle & handle)
@@ -249,7 +245,8 @@ public:
 		EVENTPP_VERIF_ACCESS(this, true, "cl.remove");
 
 		auto node = handle.lock();
-		if(node) {
+		// A removed callback can be still alive because a running invocation references it.
+		if(node && node->counter != removedCounter) {
 			doFreeNode(node);
 			return true;
 		}
@@ -263,7 +260,7 @@ public:
 		EVENTPP_VERIF_ACCESS(this, false, "cl.ownsHandle");
 
 		auto node = handle.lock();
-		if(node) {
+		if(node && node->counter != removedCounter) {
 			while(node->previous) {
 				node = node->previous;
 			}
@@ -380,6 +377,20 @@ private:
 		-> typename std::enable_if<CanInvoke<Func, Callback &>::value, RT>::type
 	{
 		return func(node->callback);
+	}
+
+	void doAppend(NodePtr & node)
+	{
+		if(head) {
+			node->previous = tail;
+			tail->next = node;
+			EVENTPP_VERIF_POINT("cl.append.mid");
+			tail = node;
+		}
+		else {
+			head = node;
+			tail = node;
+		}
 	}
 
 	void doInsert(NodePtr & node, NodePtr & beforeNode)
